@@ -108,18 +108,18 @@ C08(e) ==
                          /\ \A x \in 1..Len(fields[i].n) : LowerCP(fields[i].n[x]) = LowerCP(fields[j].n[x])
       refused == Len(F) >= 1 /\ F[1].status = 500
   IN IF e.script.fail # "none" \/ e.disc >= 0 THEN {}
-     ELSE Cl(~mustRefuse \/ refused, "P08_offending_strings_are_refused_with_500")
+     ELSE Cl(~mustRefuse \/ refused \/ e.swallow, "P08_offending_strings_are_refused_with_500")   \* (an application that swallows the refusal answers for itself)
      \cup Cl(mayRefuse \/ ~refused, "P08_clean_strings_are_not_refused")
      \cup Cl(\A i \in 1..Len(head) : (head[i] = 13 => (i < Len(head) /\ head[i + 1] = 10)) /\ (head[i] = 10 => (i > 1 /\ head[i - 1] = 13)),
              "P08_only_CR_LF_in_the_head_are_line_terminators")
-     \cup Cl(~refused \/ ~o.app_strings_on_wire, "P08_refused_strings_are_never_emitted")
-     \cup Cl(refused \/ mustRefuse \/ Len(lines) = 0 \/ \A i \in 1..Len(fields) :
+     \cup Cl(~(refused \/ (e.swallow /\ mustRefuse)) \/ ~o.app_strings_on_wire, "P08_refused_strings_are_never_emitted")
+     \cup Cl(refused \/ mustRefuse \/ e.swallow \/ Len(lines) = 0 \/ \A i \in 1..Len(fields) :
              Cardinality({k \in 2..Len(lines) : LineIs(lines[k], i)}) = Cardinality({j \in 1..Len(fields) : SameField(i, j)}),
              "P08_each_application_field_is_one_head_line")
-     \cup Cl(refused \/ mustRefuse \/ Len(lines) = 0 \/
+     \cup Cl(refused \/ mustRefuse \/ e.swallow \/ Len(lines) = 0 \/
              \A k \in 2..Len(lines) : (\E i \in 1..Len(fields) : LineIs(lines[k], i)) \/ o.line_names[k] \in ServerFields,
              "P08_other_head_lines_are_server_fields_only")
-     \cup Cl(refused \/ mustRefuse \/ Len(lines) = 0 \/ o.status_line = e.strs.status, "P08_status_line_carries_the_application_status")
+     \cup Cl(refused \/ mustRefuse \/ e.swallow \/ Len(lines) = 0 \/ o.status_line = e.strs.status, "P08_status_line_carries_the_application_status")
 
 (* ---------------------------------------------------------------- C09 *)
 C09(e) ==
